@@ -31,6 +31,9 @@ pub enum BgOp {
     /// a local-parent scope that also records an event and a property
     LocalEv,
     Pause { us: u16 },
+    /// a backlog of `n` cheap commands (events on the handed-off span): the collector spends a
+    /// while on this thread's queue
+    Backlog { n: u16 },
 }
 
 #[derive(Clone, Debug, Serialize, Deserialize, PartialEq)]
@@ -38,6 +41,9 @@ pub struct BgThread {
     pub ops: Vec<BgOp>,
     /// the thread returns directly after its last finish (otherwise it stays until delivery)
     pub exit_now: bool,
+    /// pause before the thread's first tracing call (its first command registers its queue)
+    #[serde(default)]
+    pub start_delay_us: u16,
 }
 
 #[derive(Clone, Debug, Serialize, Deserialize, PartialEq)]
@@ -55,9 +61,11 @@ pub fn strategy() -> BoxedStrategy<BgCase> {
         3 => (1u8..5).prop_map(|n| BgOp::Local { n }),
         1 => Just(BgOp::LocalEv),
         2 => prop_oneof![Just(0u16), 1u16..400, 2000u16..30000].prop_map(|us| BgOp::Pause { us }),
+        1 => (1500u16..4000).prop_map(|n| BgOp::Backlog { n }),
     ];
-    let th = (proptest::collection::vec(op, 1..7), any::<bool>()).prop_map(|(ops, exit_now)| BgThread { ops, exit_now });
-    (proptest::collection::vec(th, 1..4), any::<bool>())
+    let th = (proptest::collection::vec(op, 1..7), any::<bool>(), prop_oneof![2 => Just(0u16), 3 => 0u16..3000, 1 => 3000u16..15000])
+        .prop_map(|(ops, exit_now, start_delay_us)| BgThread { ops, exit_now, start_delay_us });
+    (prop_oneof![3 => proptest::collection::vec(th.clone(), 1..4), 1 => proptest::collection::vec(th, 4..9)], any::<bool>())
         .prop_map(|(threads, finish_root_first)| BgCase { threads, finish_root_first })
         .boxed()
 }
@@ -93,6 +101,8 @@ pub struct BgOutcome {
     pub latencies_ns: Vec<u64>,
     pub expected: usize,
     pub exits: usize,
+    /// report() calls (= collector cycles) that happened while the harness waited for delivery
+    pub cycles_while_waiting: u64,
 }
 
 pub fn run(c: &BgCase) -> BgOutcome {
@@ -119,7 +129,11 @@ pub fn run(c: &BgCase) -> BgOutcome {
             std::thread::Builder::new()
                 .name("vt-bg".into())
                 .spawn(move || {
+                    if th.start_delay_us > 0 {
+                        std::thread::sleep(Duration::from_micros(th.start_delay_us as u64));
+                    }
                     let own = Span::root(format!("own-{}-{}", tag2, t), SpanContext::new(TraceId(base + 1 + t as u128), SpanId(0)));
+                    let mut backlog_left = 9000usize;
                     let mut mine: Vec<(String, usize, Instant)> = vec![];
                     for (i, op) in th.ops.iter().enumerate() {
                         let name = format!("s{}-{}-{}", t, tag2, i);
@@ -161,6 +175,13 @@ pub fn run(c: &BgCase) -> BgOutcome {
                                 mine.push((name, 1, Instant::now()));
                             }
                             BgOp::Pause { us } => std::thread::sleep(Duration::from_micros(*us as u64)),
+                            BgOp::Backlog { n } => {
+                                let n = (*n as usize).min(backlog_left);
+                                backlog_left -= n;
+                                for _ in 0..n {
+                                    parent.add_event(Event::new("f"));
+                                }
+                            }
                         }
                     }
                     drop(parent);
@@ -210,6 +231,7 @@ pub fn run(c: &BgCase) -> BgOutcome {
     // no flush(): only poll
     let count = |sink: &Vec<(String, Instant)>, name: &str| sink.iter().filter(|(n, _)| n == name).count();
     let start = Instant::now();
+    let calls_at_start = REPORT_CALLS.load(Ordering::SeqCst);
     let mut all = false;
     while start.elapsed() < DEADLINE {
         {
@@ -222,6 +244,7 @@ pub fn run(c: &BgCase) -> BgOutcome {
         std::thread::sleep(Duration::from_millis(1));
     }
     let mut out = BgOutcome { expected: expected.len(), exits, ..Default::default() };
+    out.cycles_while_waiting = REPORT_CALLS.load(Ordering::SeqCst) - calls_at_start;
     // duplicates would come with a later cycle
     std::thread::sleep(interval * 3);
     release.store(true, Ordering::SeqCst);
@@ -235,13 +258,14 @@ pub fn run(c: &BgCase) -> BgOutcome {
             out.violations.push((
                 "no-flush:not-delivered".into(),
                 format!(
-                    "span {:?} finished {} ms ago, nobody called flush(): {} of {} copies reported after {} report intervals ({} report calls so far){}",
+                    "span {:?} finished {} ms ago, nobody called flush(): {} of {} copies reported after {} report intervals ({} report calls so far, {} of them while waiting){}",
                     n,
                     fin.elapsed().as_millis(),
                     got.len(),
                     k,
                     DEADLINE.as_micros() / interval.as_micros().max(1),
                     REPORT_CALLS.load(Ordering::SeqCst),
+                    out.cycles_while_waiting,
                     if all { "" } else { "; gave up waiting" }
                 ),
             ));
